@@ -599,6 +599,10 @@ fn symbols() -> Vec<(Val, bool /*core*/)> {
         (BStr::lit(b"a\0b"), false),
         (BStr::lit(b"a b"), false),
         (BStr::lit(b"a\rb\nc\td"), true),
+        // each control character alone (a fast path keyed on one of them must not skip the others)
+        (BStr::lit(b"a\tb"), true),
+        (BStr::lit(b"a\rb"), true),
+        (BStr::lit(b"a\nb"), true),
         (BStr::lit(b"\r\n\t\0"), false),
         (BStr::lit(b"\x01\x7f~"), false),
         (BStr::lit("\u{e4}\u{20ac}\u{1f600}".as_bytes()), false),
